@@ -3814,9 +3814,31 @@ impl Machine {
         Ok(())
     }
 
+    /// `get_single_char/1` answered from the verification keyboard script.
+    #[cfg(feature = "verif")]
+    fn scripted_single_char(&mut self, key: Option<u8>) -> CallResult {
+        match key {
+            Some(b) => {
+                let a1 = self.deref_register(1);
+                self.machine_st.unify_char(b as char, a1);
+                Ok(())
+            }
+            None => {
+                let stub = functor_stub(atom!("get_single_char"), 1);
+                let err = self.machine_st.interrupt_error();
+                Err(self.machine_st.error_form(err, stub))
+            }
+        }
+    }
+
     #[cfg(feature = "repl")]
     #[inline(always)]
     pub(crate) fn get_single_char(&mut self) -> CallResult {
+        #[cfg(feature = "verif")]
+        if let Some(key) = crate::verif_hooks::next_scripted_key() {
+            return self.scripted_single_char(key);
+        }
+
         let key = get_key();
 
         if key.code == KeyCode::Char('c') && key.modifiers == KeyModifiers::CONTROL {
@@ -3842,6 +3864,11 @@ impl Machine {
     #[cfg(not(feature = "repl"))]
     #[inline(always)]
     pub(crate) fn get_single_char(&mut self) -> CallResult {
+        #[cfg(feature = "verif")]
+        if let Some(key) = crate::verif_hooks::next_scripted_key() {
+            return self.scripted_single_char(key);
+        }
+
         let mut buffer = [0; 1];
         // is there a better way?
         if std::io::stdin().read(&mut buffer).is_err() {
